@@ -647,6 +647,7 @@ fn c01_plan(tier: Tier) -> Vec<Job> {
     let q = tier == Tier::Quick;
     vec![
         Job { sub: "sched", kind: JobKind::Pbt { cases: if q { 100_000 } else { 2_000_000 }, max_len: 1200 }, smallbuf: false },
+        Job { sub: "defer", kind: JobKind::Pbt { cases: if q { 6_000 } else { 100_000 }, max_len: 300 }, smallbuf: false },
         Job { sub: "cut1", kind: JobKind::Enum { f: c01_cut1_enum, bound: "grammar streams #0..N (<=2600 bytes) x every single cut position x {no fault, EAGAIN/EINTR at the cut (1/3 of positions)}, B=1024" }, smallbuf: false },
         Job { sub: "sweep", kind: JobKind::Enum { f: sweep_enum, bound: "5 templates x every pad length in the stated ranges x fixed read sizes, B=1024" }, smallbuf: false },
         Job { sub: "e2_32", kind: JobKind::Enum { f: small_cut2_enum, bound: "B=32: all streams of the piece family (5 request lines x all header sequences of length <=2 (quick) / <=3 (thorough) over 12 header pieces, 64 pipelined pairs) x every pair of cut positions x every single EAGAIN/EINTR placement" }, smallbuf: true },
@@ -657,7 +658,7 @@ fn c01_plan(tier: Tier) -> Vec<Job> {
 pub fn c01() -> PropDef {
     PropDef {
         id: "C01",
-        subs: vec![("sched", c01_sched), ("cut1", c01_cut1), ("sweep", c01_sweep), ("e2_32", c01_e2_32), ("raw", crate::props::raw::c01_raw)],
+        subs: vec![("sched", c01_sched), ("cut1", c01_cut1), ("sweep", c01_sweep), ("e2_32", c01_e2_32), ("raw", crate::props::raw::c01_raw), ("defer", c01_defer)],
         plan: c01_plan,
         rule: "case = (byte stream from the request grammar with corruptions/truncation, payload limit, read schedule incl. EAGAIN/EINTR reads); oracle = REF in prefix form after every read + equality of transcripts across schedules; non-trivial = the stream delivers >=1 request or an error AND the schedule has >=2 data reads with >=1 cut strictly inside an element; distinct = hash of (stream, limit, read sizes)",
         assumptions: vec![
@@ -676,6 +677,16 @@ pub fn c01() -> PropDef {
 /// request of the grammar that has been received is delivered, in order, once popped.
 /// Bursts of small requests over several reads, nothing popped until the end.
 fn c02_defer(input: &Input, obs: &mut Obs) -> Result<(), Fail> {
+    defer_burst("C02", 20, input, obs)
+}
+
+/// the same with the owner popping one or a few requests after most reads (stream order must
+/// survive any pop pacing)
+fn c01_defer(input: &Input, obs: &mut Obs) -> Result<(), Fail> {
+    defer_burst("C01", 150, input, obs)
+}
+
+fn defer_burst(prop: &str, pop_chance: u32, input: &Input, obs: &mut Obs) -> Result<(), Fail> {
     let mut s = Src::new(input.bytes());
     let k = match s.weighted(&[3, 4, 3]) {
         0 => s.range(2, 20),
@@ -702,25 +713,25 @@ fn c02_defer(input: &Input, obs: &mut Obs) -> Result<(), Fail> {
     while run.remaining() > 0 && guard < 8 * stream.len() + 64 {
         guard += 1;
         let want = sizes[s.below(sizes.len())];
-        let st = run.read(ReadEv::Data { want, fds: vec![] }).map_err(|m| Fail::new("C02:stream-misuse", m))?.clone();
+        let st = run.read(ReadEv::Data { want, fds: vec![] }).map_err(|m| Fail::new(&format!("{}:stream-misuse", prop), m))?.clone();
         match &st.res {
             RRes::Ok => {}
-            RRes::Panic(m) => return Err(Fail::new("C02:panic", m.clone())),
-            other => return Err(Fail::new("C02:spurious-error", format!("a burst of {} well-formed requests, none popped yet: try_read returned {:?} after {} bytes", k, other, run.consumed))),
+            RRes::Panic(m) => return Err(Fail::new(&format!("{}:panic", prop), m.clone())),
+            other => return Err(Fail::new(&format!("{}:spurious-error", prop), format!("a burst of {} well-formed requests, none popped yet: try_read returned {:?} after {} bytes", k, other, run.consumed))),
         }
         // now and then the owner takes a few
-        if s.chance(20) {
-            run.pop_some(s.range(1, 3)).map_err(|m| Fail::new("C02:panic", m))?;
+        if s.chance(pop_chance) {
+            run.pop_some(s.range(1, 3)).map_err(|m| Fail::new(&format!("{}:panic", prop), m))?;
         }
     }
-    run.pop_some(usize::MAX).map_err(|m| Fail::new("C02:panic", m))?;
+    run.pop_some(usize::MAX).map_err(|m| Fail::new(&format!("{}:panic", prop), m))?;
     let want: Vec<&RefRequest> = reqs.iter().filter(|r| r.complete_at != usize::MAX).collect();
     if run.kept.len() != want.len() {
-        return Err(Fail::new("C02:delivery-count", format!("{} well-formed requests received ({} bytes, all read), {} delivered once the owner pops", want.len(), stream.len(), run.kept.len())));
+        return Err(Fail::new(&format!("{}:delivery-count", prop), format!("{} well-formed requests received ({} bytes, all read), {} delivered once the owner pops", want.len(), stream.len(), run.kept.len())));
     }
     for (i, ((_, rq), r)) in run.kept.iter().zip(want.iter()).enumerate() {
         if let Some(m) = diff_delivered(&delivered_of(rq), r) {
-            return Err(Fail::new("C02:delivery-content", format!("request #{} of the burst: {}", i, m)));
+            return Err(Fail::new(&format!("{}:delivery-content", prop), format!("request #{} of the burst: {}", i, m)));
         }
     }
     if k > 64 {
